@@ -1,11 +1,18 @@
 from .common import COMMON_ASSUME
 
 CFG = {
+    "extra_props_modules": ["RpmVerif.Props.Pipeline"],
     "props_module": "RpmVerif.Props.C06",
     "required_theorems": ["RpmVerif.C06.build_reparse", "RpmVerif.C06.getter_of_slot", "RpmVerif.C06.slots_tags_nodup",
                           "RpmVerif.C06.readback_name", "RpmVerif.C06.readback_packager", "RpmVerif.C06.readback_group",
                           "RpmVerif.C06.readback_verify", "RpmVerif.C06.readback_requires", "RpmVerif.C06.readback_changelog",
-                          "RpmVerif.C06.readback_paths", "RpmVerif.C06.readback_mtimes"],
+                          "RpmVerif.C06.readback_paths", "RpmVerif.C06.readback_mtimes",
+                          "RpmVerif.C06.readback_sizes", "RpmVerif.C06.readback_caps", "RpmVerif.C06.readback_digest_algo",
+                          "RpmVerif.C06.readback_file_entries_tbl", "RpmVerif.C06.readback_file_entries",
+                          "RpmVerif.C06.entryOf_path_cpio", "RpmVerif.C06.readback_file_entries_build",
+                          "RpmVerif.C06.readback_file_entries_reparsed",
+                          "RpmVerif.Pipeline.build_file_entries", "RpmVerif.Pipeline.build_file_entries_reparsed",
+                          "RpmVerif.Pipeline.built_history_file_entries", "RpmVerif.Pipeline.built_package_sound"],
     "trivial_branches": ["build-rejected"],
     "rule": "seeded builder configurations through the real PackageBuilder (source files written to a scratch dir with chosen mode and mtime, "
             "clock pinned through the rpm_verif hook): any subset of optional fields; strings from {empty, ASCII, multi-line, tabs, multi-byte, quotes}; "
@@ -25,8 +32,15 @@ CFG = {
                   "each typed getter on that header returns exactly the record's data, hence name, epoch, version, release, arch, licence, summary, description "
                   "(default: summary), group (default: Unspecified), vendor, packager, url, vcs, cookie, build host, all nine scriptlets (script, flags, "
                   "interpreter), the eight dependency lists (user-supplied ones as a prefix of what is read back), the changelog, per-file modes / owners / "
-                  "flags / link targets / digests / clamped mtimes and the file paths dir ++ basename are read back as supplied. The model predicts the emitted "
+                  "flags / link targets / digests / clamped mtimes and the file paths dir ++ basename are read back as supplied. "
+                  "get_file_entries() itself is proved end to end (readback_file_entries): on the built header and any signature header without IMA "
+                  "signatures — in particular those build, sign and clear_signatures install — it returns one record per builder file, in order, with the "
+                  "file's destination path (the cpio name without its leading '.'), mode, owner, group, min(mtime, source_date), size (FILESIZES or "
+                  "LONGFILESIZES), flags, SHA-256 digest, capabilities and link target, and [] for a package without files; the same holds on the written "
+                  "and re-parsed package (readback_file_entries_reparsed, Pipeline.build_file_entries_reparsed) and after any sign / clear / write + "
+                  "re-parse history (Pipeline.built_history_file_entries); hypotheses: every file's directory is registered and every digest text is "
+                  "empty or 64 characters (both guaranteed by add_data). The model predicts the emitted "
                   "lead, signature header and main header byte for byte on every generated configuration.",
     "level_note": "Trusted: Lean kernel; model fidelity as exercised (byte-exact header prediction per case); compressors / SHA-256 crates; "
-                  "add_data's path handling is C17's model. get_file_entries' composition is covered by the correspondence and the array-level theorems.",
+                  "add_data's path handling is C17's model. get_file_entries' composition is a theorem (readback_file_entries) and is also exercised by the correspondence.",
 }
